@@ -11,6 +11,7 @@ use serde_json::json;
 
 use crate::common::*;
 use crate::util::*;
+use crate::wire::*;
 
 pub const SYMBOLS: [char; 4] = ['a', 'b', 'é', '😀'];
 const GRACE_NS: u64 = 10_000_000_000;
@@ -581,4 +582,114 @@ pub fn run_drop_race(ctx: &Ctx, report: &mut Report) {
 
 pub fn replay_drop_race(ctx: &Ctx, sub: &str, case: &serde_json::Value) -> SubResult {
     replay_case::<DropRaceCase, _>(ctx, sub, case, exec_drop_race)
+}
+
+// ------------------------------------------------------------------------------------------
+// An event is dispatched while a handle drop is *in progress* on another thread (the dropped
+// closure owns a value whose destructor takes a while): the dispatching side (a local write or
+// the processing of a gossip message) must neither panic nor lose the event for the other
+// subscriptions. Harness-scheduled: the destructor announces itself, then holds for a few tens of
+// milliseconds of real time while the main thread dispatches.
+
+#[derive(Clone, Debug, Serialize, Deserialize)]
+pub struct SlowDropCase {
+    pub prefix: Vec<u8>,
+    pub key_tail: Vec<u8>,
+    /// The event comes from a gossip message about another member (true) or from a local write.
+    pub via_message: bool,
+    pub hold_ms: u8,
+}
+
+struct SlowDrop {
+    entered: std::sync::Mutex<std::sync::mpsc::Sender<()>>,
+    hold: std::time::Duration,
+}
+
+impl Drop for SlowDrop {
+    fn drop(&mut self) {
+        let _ = self.entered.lock().unwrap().send(());
+        std::thread::sleep(self.hold);
+    }
+}
+
+pub fn exec_slow_drop(case: &SlowDropCase, tally: &mut Tally, prop: &str) -> Result<(), Failure> {
+    use std::sync::atomic::{AtomicUsize, Ordering};
+    use std::sync::mpsc;
+    let fd = FdCfg::default();
+    let owner_id = simple_id("owner", 0, 7111);
+    let mut node = build_node(&owner_id, "c", Duration::from_nanos(GRACE_NS), &fd, false, 0).chitchat;
+    let prefix = sym_string(&case.prefix);
+    let key = format!("{prefix}{}", sym_string(&case.key_tail));
+    let (entered_tx, entered_rx) = mpsc::channel::<()>();
+    let slow = SlowDrop { entered: std::sync::Mutex::new(entered_tx), hold: std::time::Duration::from_millis(20 + case.hold_ms as u64 % 60) };
+    let victim = node.subscribe_event(prefix.clone(), move |_| {
+        let _ = &slow;
+    });
+    let witness_calls = std::sync::Arc::new(AtomicUsize::new(0));
+    let wc = witness_calls.clone();
+    let witness = node.subscribe_event(prefix.clone(), move |_| {
+        wc.fetch_add(1, Ordering::SeqCst);
+    });
+    // the message variant: a delta about another member carrying the key
+    let other = WId::v4("other", 0, 7112);
+    let msg = {
+        let ops = vec![WOp::Node { id: other.clone(), last_gc: 0, from_version: 0 }, WOp::Kv(WKv { key: key.clone(), value: "v".into(), version: 1, status: 0 })];
+        let (bytes, _) = encode_msg(&WMsg::Ack { ops }, Blocking::Canonical);
+        real_decode(&bytes).map(|(m, _)| m).map_err(|e| Failure::new(format!("{prop}/setup"), e))?
+    };
+    if case.via_message {
+        // make the member known first (a delta about an unknown member is ignored)
+        let (bytes, _) = encode_msg(&WMsg::Syn { cluster_id: "c".into(), digest: vec![WNodeDigest { id: other.clone(), heartbeat: 1, last_gc: 0, max_version: 0 }] }, Blocking::Canonical);
+        if let Ok((m, _)) = real_decode(&bytes) {
+            node.verif_process_message(m);
+        }
+    }
+    let outcome = std::thread::scope(|scope| -> Result<Option<PanicInfo>, ()> {
+        let dropper = scope.spawn(move || drop(victim));
+        if entered_rx.recv_timeout(std::time::Duration::from_secs(5)).is_err() {
+            let _ = dropper.join();
+            return Err(());
+        }
+        // the drop is in progress now
+        let r = guard(|| {
+            if case.via_message {
+                node.verif_process_message(msg);
+            } else {
+                node.self_node_state().set(&key, "v");
+            }
+        });
+        let _ = dropper.join();
+        Ok(r.err())
+    });
+    match outcome {
+        Err(()) => {
+            tally.discard("the destructor did not start within 5 s");
+            return Ok(());
+        }
+        Ok(Some(p)) => {
+            return Err(Failure::new(format!("{prop}/{}", p.signature()), format!("{} while a listener handle was being dropped on another thread panicked: {}", if case.via_message { "processing a gossip message" } else { "a local write" }, p.describe())));
+        }
+        Ok(None) => {}
+    }
+    if witness_calls.load(Ordering::SeqCst) != 1 {
+        return Err(Failure::new(format!("{prop}/event-lost-during-handle-drop"), format!("another subscription on prefix {prefix:?} was called {} times (expected once) for key {key:?} written while a handle drop was in progress", witness_calls.load(Ordering::SeqCst))));
+    }
+    drop(witness);
+    tally.nontrivial(str_hash(&format!("{case:?}")));
+    tally.label(if case.via_message { "message_during_handle_drop" } else { "local_write_during_handle_drop" });
+    Ok(())
+}
+
+pub fn slow_drop_strategy() -> impl Strategy<Value = SlowDropCase> {
+    (proptest::collection::vec(0u8..4, 0..=2), proptest::collection::vec(0u8..4, 0..=2), any::<bool>(), any::<u8>()).prop_map(|(prefix, key_tail, via_message, hold_ms)| SlowDropCase { prefix, key_tail, via_message, hold_ms })
+}
+
+pub fn run_slow_drop(ctx: &Ctx, report: &mut Report) {
+    let prop = ctx.prop.clone();
+    report.push(run_proptest(ctx, "event-during-handle-drop", ctx.cases(96, 2_400), 20, slow_drop_strategy, move |c, t| exec_slow_drop(c, t, &prop)));
+}
+
+pub fn replay_slow_drop(ctx: &Ctx, sub: &str, case: &serde_json::Value) -> SubResult {
+    let prop = ctx.prop.clone();
+    replay_case::<SlowDropCase, _>(ctx, sub, case, move |c, t| exec_slow_drop(c, t, &prop))
 }
